@@ -9,13 +9,18 @@ def prepare(case):
     d = case["in"]
     names = d["names"]
     edges = [tuple(e) for e in d["edges"]]
-    assert names and all(e[0] in names and e[2] in names and e[1] in KINDS + KINDS_EXTRA for e in edges) and not has_allof_cycle(names, edges)
+    assert names and all(e[0] in names and e[2] in names and e[1] in KINDS + KINDS_EXTRA + KINDS_UNION for e in edges) and not has_allof_cycle(names, edges)
     roots = d.get("roots") or names
     assert all(x in names for x in roots)
-    spec = graph_spec(names, edges, roots)
-    base = {"spec": spec, "cfg": {"all_schemas": True}, "mode": "client-mod", "judges": ["size", "default"]}
+    umix = d.get("umix") or {}
+    assert all(k in names and v in INLINE_MEMBERS for k, v in umix.items()) and d.get("inline", "string") in INLINE_MEMBERS
+    if umix or d.get("inline") or any(e[1] in KINDS_UNION for e in edges):
+        spec = graph_spec_u(names, edges, roots, umix, d.get("inline", "string"))
+    else:
+        spec = graph_spec(names, edges, roots)
+    base = {"spec": spec, "cfg": {"all_schemas": True, "no_helpers": bool(d.get("no_helpers"))}, "mode": "client-mod", "judges": ["size", "default"],
+            "schemas": spec["components"]["schemas"]}      # the schemas: model of the boxing rule, class predicates
     if case["op"] == "graph.analyze":
-        base["schemas"] = spec["components"]["schemas"]
         base["ops"] = selected_ops(spec)
     return {"op": case["op"], "in": dict(d, **base)}
 
@@ -64,6 +69,60 @@ def cases(ctx):
     return out
 
 
+def emit_case(names, edges, **opts):
+    d = {"names": list(names), "edges": [list(e) for e in edges]}
+    d.update({k: v for k, v in opts.items() if v})
+    return {"op": "graph.emit", "in": d}
+
+
+def overflow_shape(d):
+    return inline_union_cycle(graph_schemas_u(d["names"], [tuple(e) for e in d["edges"]], d.get("umix"), d.get("inline", "string")))
+
+
+def union_cases(ctx):
+    """unions that a recursive struct holds by value: inline unions in members / array items / map values whose
+    member refers back, named unions repeated inline, with and without helper constructors.  Returns (cases,
+    cases kept WITH helpers although the unchanged generator is known to die on them)."""
+    r = ctx.rng
+    out, risky = [], []
+
+    def add(names, edges, **opts):
+        c = emit_case(names, edges, **opts)
+        if not c["in"].get("no_helpers") and overflow_shape(c["in"]):
+            # known to kill the generator process (F10-3): a few are kept to pin the finding, the rest runs --no-helpers
+            if len(risky) < (2 if ctx.quick else 12) and r.random() < 0.3:
+                risky.append(c)
+            c = emit_case(names, edges, **dict(opts, no_helpers=True))
+        out.append(c)
+        if r.random() < 0.25:
+            out.append(dict(c, op="graph.analyze"))
+
+    for t in UNION_TEMPLATES:
+        for nh in (False, True):
+            add(t["names"], t["edges"], umix=t.get("umix"), inline=t.get("inline"), no_helpers=nh)
+    two = [(n, e) for n, e in two_node_union_graphs() if not has_allof_cycle(n, e)]
+    if ctx.quick:
+        two = r.sample(two, 150)
+    for names, edges in two:
+        for nh in ((False, True) if not ctx.quick else (r.random() < 0.5,)):
+            add(names, edges, no_helpers=nh, inline=r.choice([None, None, "object", "integer"]))
+    for _ in range(120 if ctx.quick else 2500):
+        names = ["A", "B", "C", "D", "E"][: r.randint(2, 5)]
+        if r.random() < 0.3 and len(names) > 2:
+            names = names[:-2] + r.sample(ODD_NAMES, 2)
+        edges = []
+        for _ in range(r.randint(2, 7)):
+            e = (r.choice(names), r.choice(KINDS_UNION if r.random() < 0.5 else KINDS + KINDS_EXTRA), r.choice(names))
+            if e not in edges:
+                edges.append(e)
+        if has_allof_cycle(names, edges) or not any(e[1] in KINDS_UNION for e in edges):
+            continue
+        unions = [n for n in names if any(e[0] == n and e[1] in ("oneOf", "anyOf") for e in edges)]
+        umix = {n: r.choice(list(INLINE_MEMBERS)) for n in unions if r.random() < 0.5}
+        add(names, edges, umix=umix, inline=r.choice([None, None, "object", "loose", "uuid"]), no_helpers=r.random() < 0.5)
+    return out, risky
+
+
 def run(ctx):
     proofs_ok, driver_ok = ctx.build_lean(["Oas3Model.Props.C10"])
     if proofs_ok:
@@ -72,12 +131,21 @@ def run(ctx):
             ctx.leanchecker("Oas3Model.Props.C10")
     ctx.prepare = prepare
     if driver_ok and ctx.build_harness(["k_gen"]):
-        allc = vlib_corpus(ctx) + cases(ctx)
+        ucases, risky = union_cases(ctx)
+        corpus = vlib_corpus(ctx)
+        risky = [c for c in corpus if c["op"] == "graph.emit" and not c["in"].get("no_helpers") and overflow_shape(c["in"])] + risky
+        allc = [c for c in corpus if c not in risky] + ucases + cases(ctx)
         B = 500
         for i in range(0, len(allc), B):
             ctx.classify(ctx.evaluate(allc[i:i + B]), tie="K+E")
             if len(ctx.violations) >= 3:
                 break
+        # documents on which the generator process itself dies are evaluated one by one (a dead process takes the
+        # rest of its batch with it)
+        for c in risky:
+            if len(ctx.violations) >= 3:
+                break
+            ctx.classify(ctx.evaluate([c]), tie="K+E")
     return ctx.finish(
         checker_cmd="lake build Oas3Model.Props.C10 && #print axioms on every theorem" + ("" if ctx.quick else " && leanchecker"),
         trusted_base=vlib.TRUSTED_BASE + ["the by-value / Box / Vec / map / Option reading of emitted field types (harness/src/k_graph.rs::walk)", "rustc's own E0072 check is not run in the quick tier", "better_default's Default expansion: struct -> every field without #[default(..)], enum -> the #[default] variant's payload"],
